@@ -43,13 +43,22 @@ fn letter_digit(b: u8) -> Option<u64> {
 
 /// kmers.counts -> [[digits32, count], ...]; a line that does not parse becomes [[], -1]
 pub fn decode_counts(path: &str, acgt: bool) -> Vec<Value> {
+    decode_counts_k(path, acgt, None)
+}
+
+/// with `k`: a k-mer rendered as text must have exactly k letters
+pub fn decode_counts_k(path: &str, acgt: bool, k: Option<usize>) -> Vec<Value> {
     let mut out = Vec::new();
     for line in lines_of(path) {
         let mut it = line.split('\t');
         let kmer = it.next().unwrap_or("");
         let cnt = it.next().and_then(|c| c.parse::<i64>().ok());
         let code: Option<u64> = if acgt {
-            kmer.bytes().try_fold(0u64, |acc, b| letter_digit(b).map(|d| acc * 4 + d))
+            if k.map(|kk| kk != kmer.len()).unwrap_or(false) {
+                None
+            } else {
+                kmer.bytes().try_fold(0u64, |acc, b| letter_digit(b).map(|d| acc * 4 + d))
+            }
         } else {
             kmer.parse::<u64>().ok()
         };
@@ -80,7 +89,7 @@ fn reset_event(cfg: &CtrCfg, seqs: &[Vec<u8>], log: &[Event], mode: &str) -> Val
 fn finish_events(dir: &str, cfg: &CtrCfg, evs: &mut Vec<Value>) {
     let temps: Vec<Vec<u64>> = list_temps(dir).iter().map(|(p, c)| vec![*p, *c]).collect();
     evs.push(json!({"ev":"listing","temps":temps}));
-    evs.push(json!({"ev":"counts","k":cfg.k,"lines":decode_counts(&format!("{}/kmers.counts", dir), cfg.acgt)}));
+    evs.push(json!({"ev":"counts","k":cfg.k,"lines":decode_counts_k(&format!("{}/kmers.counts", dir), cfg.acgt, Some(cfg.k))}));
 }
 
 fn fresh_dir(dir: &str) -> String {
